@@ -361,8 +361,10 @@ func runCtx(r *core.Run) {
 				if f == "exprLevel" || f == "stmtLevel" || f == "scope" {
 					continue
 				}
+				// a save: the loaded value is later written back into some field of the parser
+				// (restoring it into a *different* field is exactly what the rule must notice)
 				for _, st := range allStores(fn) {
-					if isParserField(st.Addr, f) && st.Val == ssa.Value(u) {
+					if isParserField(st.Addr, "") && st.Val == ssa.Value(u) {
 						ss = append(ss, save{u, f})
 						break
 					}
@@ -582,3 +584,106 @@ func runErrTree(r *core.Run) {
 }
 
 var _ = types.Typ
+
+// ------------------------------------------------------------------- R-MARK
+
+func init() {
+	register(&Rule{ID: "R-MARK", Props: []string{"C04"}, Doc: "js parser: MarkFuncArgs after every parameter list, MarkForStmt once between a loop head and its body", Run: runMark})
+}
+
+func isScopeCall(in ssa.Instruction, name string) bool {
+	c, ok := in.(ssa.CallInstruction)
+	if !ok {
+		return false
+	}
+	f := c.Common().StaticCallee()
+	return f != nil && recvName(f) == "Scope" && f.Name() == name
+}
+
+func runMark(r *core.Run) {
+	// (a) functions that finish a parameter list
+	for _, name := range []string{"parseFuncParams", "parseArrowFuncBody"} {
+		fn := r.Prog.SSAFunc("js", "Parser", name)
+		if fn == nil {
+			r.BrokenAnchor("js.Parser." + name)
+			continue
+		}
+		bad := ""
+		var badPos token.Pos
+		pathFlow(fn, pstate{}, func(s pstate, in ssa.Instruction) pstate {
+			if isScopeCall(in, "MarkFuncArgs") {
+				s.v[0] = clamp(s.v[0] + 1)
+			}
+			return s
+		}, func(s pstate, ret *ssa.Return) {
+			if !s.err && s.v[0] != 1 && bad == "" {
+				bad = fmt.Sprintf("a non-error path returns at %s after %d calls of MarkFuncArgs", r.Prog.Position(ret.Pos()), s.v[0])
+				badPos = ret.Pos()
+			}
+		})
+		pos := fn.Pos()
+		if bad != "" {
+			pos = badPos
+		}
+		r.Check(bad == "", fnLabel(fn)+" marks the parameter scope exactly once", pos, "", bad+": uses in parameter default values are not separated from same-named declarations in the body (`function f(a=b){var b}` merges the two b)")
+	}
+	// (b) for statements: between entering the loop scope and leaving it, MarkForStmt runs exactly once
+	fn := r.Prog.SSAFunc("js", "Parser", "parseStmt")
+	if fn == nil {
+		r.BrokenAnchor("js.Parser.parseStmt")
+		return
+	}
+	var enters []*ssa.Call
+	for _, b := range fn.Blocks {
+		for _, in := range b.Instrs {
+			if c, ok := in.(*ssa.Call); ok {
+				if f := c.Call.StaticCallee(); f != nil && recvName(f) == "Parser" && f.Name() == "enterScope" {
+					enters = append(enters, c)
+				}
+			}
+		}
+	}
+	loops := 0
+	for _, e := range enters {
+		// is this the loop scope? some MarkForStmt call is dominated by it
+		isLoop := false
+		for _, b := range fn.Blocks {
+			for _, in := range b.Instrs {
+				if isScopeCall(in, "MarkForStmt") && (e.Block() == b || e.Block().Dominates(b)) {
+					isLoop = true
+				}
+			}
+		}
+		if !isLoop {
+			continue
+		}
+		loops++
+		bad := ""
+		var badPos token.Pos
+		pathFlow(fn, pstate{}, func(s pstate, in ssa.Instruction) pstate {
+			if in == ssa.Instruction(e) {
+				s.v[0], s.v[1] = 1, 0
+				return s
+			}
+			if s.v[0] == 1 && isScopeCall(in, "MarkForStmt") {
+				s.v[1] = clamp(s.v[1] + 1)
+			}
+			if c, ok := in.(*ssa.Call); ok && s.v[0] == 1 {
+				if f := c.Call.StaticCallee(); f != nil && recvName(f) == "Parser" && f.Name() == "exitScope" && c.Call.Args[1] == ssa.Value(e) {
+					if !s.err && s.v[1] != 1 && bad == "" {
+						bad = fmt.Sprintf("a non-error path leaves the loop scope at %s after %d calls of MarkForStmt", r.Prog.Position(c.Pos()), s.v[1])
+						badPos = c.Pos()
+					}
+					s.v[0] = 0
+				}
+			}
+			return s
+		}, func(s pstate, ret *ssa.Return) {})
+		pos := e.Pos()
+		if bad != "" {
+			pos = badPos
+		}
+		r.Check(bad == "", "parseStmt marks each for-loop head exactly once", pos, "", bad+": declarations and uses of the loop head are not separated from the body's")
+	}
+	r.Check(loops == 1, "for-statement scope found", fn.Pos(), "", fmt.Sprintf("%d loop scopes with MarkForStmt found in parseStmt", loops))
+}
